@@ -310,7 +310,8 @@ def _check_main(ctx):
         allen_hist[rel] += 1
         req = "combdiff %d %d %d %d" % (al, ah, bl, bh)
         ctx.count(req, nontrivial=nonempty and rel not in ("before", "after", "meets", "met-by"), bucket="diff/" + rel)
-        cases.append((req, ans, dict(rel=rel)))
+        if nonempty:       # an empty IntRange never occurs inside a Combinatoric (lazy_choose filters them): not compared
+            cases.append((req, ans, dict(rel=rel)))
         # oracle (C05_difference): for non-empty operands the factors are only moved, never lost or invented
         if nonempty:
             how = how_py % ("from ka.types import IntRange as R; print(*map(lambda l: list(map(str, l)), R(%d,%d).difference(R(%d,%d))))" % (al, ah, bl, bh))
@@ -585,3 +586,11 @@ def check(ctx):
     # shared oracle: operators return new values, operands bound to variables are never updated in place
     import alias_common
     alias_common.run(ctx, prefix="alias")
+
+
+# ---- refinement lemmas of the unified pipeline model for this property (Props/Pipeline2.lean): the fragment this check's
+# theorems are about IS what the whole-program model computes on the fragment's sub-language
+import pipeline as _pl
+LEAN_MODULES = LEAN_MODULES + [m for m in _pl.LEAN_MODULES2 if m not in LEAN_MODULES]
+THEOREMS = THEOREMS + [t for t in _pl.THEOREMS2.get(ID, []) if t not in THEOREMS]
+GEN = GEN + [g for g in _pl.GEN if g not in GEN]
